@@ -57,6 +57,23 @@ def run(ctx):
             R.must_pass(ctx, "C02.R1", k, r"seek_by_uncompressed_position$|seek_with_index$",
                         "IndexedReader::seek delegates to the inner reader's indexed seek", fn=f)
 
+    # the in-block cursor may only be positioned inside a block that this very seek loaded: a shortcut that keeps the
+    # current block (whose data buffer may never have been filled: read_block_into_buf inflates into the caller's
+    # buffer) serves stale bytes
+    for key, loader in ((RD + "seek", r"io::reader::Reader::<R>::read_block$"),
+                        ("<%s<R> as noodles_bgzf::io::seek::Seek>::seek_to_virtual_position" % MT, r"MultithreadedReader::<R>::read_block$")):
+        f = ctx.anchor("C02.R1", key)
+        if f is None:
+            continue
+        sp = [b for b, c in R.find_calls(f, r"io::block::data::Data::set_position$") if C.eval_const(f, c["args"][1]) is None]
+        if not sp:
+            ctx.violation("C02.R1", "C02.R1/ANCHOR-MISSING/%s/set_position" % key, "%s no longer positions the in-block cursor" % key, f.loc())
+            continue
+        R.must_pass(ctx, "C02.R1", key, loader, "the in-block cursor is positioned only after this seek loaded the block (read_block)",
+                    fn=f, exits=sp)
+        R.must_pass(ctx, "C02.R1", key, r"std::io::Seek::seek$|as std::io::Seek>::seek$",
+                    "the in-block cursor is positioned only after the inner source was repositioned", fn=f, exits=sp, depth=2)
+
     # ---------------------------------------------------------------- R2 in-block offset bounded by the block length
     ctx.rule("C02.R2", "A4 struct invariant pos <= len: set_position(upos) only on the edge upos <= data().len()")
 
